@@ -19,7 +19,7 @@ RULE = ("(a) system: restricted networks (integer servers 1-3, queue capacities 
         "'no false positive' half.  (b) unit: StateDigraph.detect_deadlock on wait-for digraphs built from generated server "
         "configurations vs the same fixpoint.  Non-trivial (a): deadlock reached after >= 1 resolved blockage; distinct by digest.")
 ASSUMPTIONS = ["deadlock is defined structurally (the property's own definition), not by waiting"]
-WALL = {"quick": 50, "thorough": 540}
+WALL = {"quick": 150, "thorough": 540}
 
 ALLOWED = ["capacity", "priorities", "batching", "self_loops", "routing_objects", "process_routing", "discipline", "cc_after", "zero_service",
            "server_priority"]
@@ -185,7 +185,7 @@ def subchecks(tier):
                      horizon=(5.0, 10.0), budget=700, caps=(0, 0, 1, 1, 2), load="heavy")
     return [
         system_subcheck("system", prof, lambda spec: [DeadlockOracle()], nontrivial, classes=classes, spec_filter=post_filter,
-                        n={"quick": 2400, "thorough": 40000}, rule="simulate_until_deadlock vs structural fixpoint oracle after every event"),
-        SubCheck("detect_deadlock", config_execute, strategy=config_case(), n={"quick": 6000, "thorough": 80000}, kind="unit", is_spec=False,
+                        n={"quick": 7200, "thorough": 40000}, rule="simulate_until_deadlock vs structural fixpoint oracle after every event"),
+        SubCheck("detect_deadlock", config_execute, strategy=config_case(), n={"quick": 18000, "thorough": 80000}, kind="unit", is_spec=False,
                  rule="server configurations (1-4 nodes, 1-3 servers each: free / busy / blocked to node d) -> wait-for digraph -> detect_deadlock vs fixpoint; non-trivial = some server blocked"),
     ]
